@@ -18,3 +18,4 @@ import Reamber.Props.C15
 #print axioms Reamber.PermInv.hitsound_copy_perm_partial
 #print axioms Reamber.PermInv.n15a_object_dtype_counterexample
 #print axioms Reamber.PermInv.write_qua_perm
+#print axioms Reamber.PermInv.convert_one_perm
